@@ -1,3 +1,127 @@
-import WireV.Sets
+import WireP.Lemmas.SolveExample
+/-! # C02 — the planner emits a correct, complete, minimal, well-ordered call list
+
+Property theorems only; helper lemmas live in `WireP/Lemmas/Solve*.lean`.  The model is
+`WireV.svStep` / `svIter` / `solve` (lean/WireV/Solve.lean), a transcription of the stack machine
+in `internal/wire/analyze.go:solve`.  Vocabulary (`dep`, `Reach`, `Acyclic`, `ArgsGiven`,
+`ConcClosed`, `final`, `produced`, `resolveTy`, the bundle `H`) is in
+`WireP/Lemmas/SolveDefs.lean`, with the text of the brief.
+
+Deviations from the brief (see REPORT_C.md): statements that speak about the *value* held by a
+variable need `GivenSelf pm given` (a given type is not the key of an interface binding), which
+`H` does not imply — counterexample `pmA` below; those theorems are named `…_partial`.  Both extra
+hypotheses follow from `GivenArgs` (every given type is an `.arg` entry), which is what
+`buildProviderMap args …` guarantees for `given = args`. -/
 namespace WireP.C02
+open WireV WireP.Solve
+
+/-- **Termination within the fuel.**  On an acyclic map the stack is empty when `solve` inspects
+    the machine: `solve` never answers `.stuck`. -/
+theorem solve_terminates {pm : PMap} {sm : SMap} {given : List Ty} {out : Ty} (hH : H pm given) :
+    (final pm sm given out).stk = [] :=
+  WireP.Solve.solve_terminates hH
+
+/-- the same, as a statement about `solve` -/
+theorem solve_not_stuck {pm : PMap} {sm : SMap} {d : SetDef} {impIds : List Nat}
+    {given : List Ty} {out : Ty} (hH : H pm given) :
+    solve pm sm d impIds given out ≠ .stuck :=
+  fun h => WireP.Solve.solve_stuck_iff.mp h (WireP.Solve.solve_terminates hH)
+
+/-- **Step bound.**  The stack is already empty after `n` steps for some `n < svFuel pm`
+    (`svFuel pm = 2 + Σ_keys (1 + degree)` is sufficient with one unit to spare). -/
+theorem solve_steps {pm : PMap} {sm : SMap} {given : List Ty} {out : Ty} (hH : H pm given) :
+    ∃ n, n + 1 ≤ svFuel pm ∧ (svIter pm sm given.length n (svInit given out)).stk = [] :=
+  WireP.Solve.solve_steps hH
+
+/-- **Arguments are sound and defined before use.**  Each call is for a concrete key of the map;
+    it has one argument per dependency; argument `j` is a variable defined *earlier*
+    (`a < given.length + p`) and holds the value of the one source of dependency `j`'s type,
+    bindings resolved to the concrete type.  (`c.ins` is the provider's parameter list for
+    providers and values; for a field call the model leaves `ins` empty — see `field_ins`.) -/
+theorem solve_args_sound_partial {pm : PMap} {sm : SMap} {given : List Ty} {out : Ty}
+    (hH : H pm given) (hg : GivenSelf pm given) :
+    ∀ (p : Nat) c, (final pm sm given out).calls[p]? = some c →
+      ∃ pt, look c.out pm = some pt ∧ pt.t = c.out ∧
+        ((∀ f, pt.src ≠ .fld f) → c.ins = depsOf pt.src) ∧
+        c.args.length = (depsOf pt.src).length ∧
+        ∀ (j : Nat) a d, c.args[j]? = some a → (depsOf pt.src)[j]? = some d →
+          a < given.length + p ∧
+          produced given (final pm sm given out).calls a = some (resolveTy pm d) :=
+  WireP.Solve.solve_args_sound_partial hH.concClosed hH.givenNodup hg
+
+/-- **Payload.**  Every call is `mkCall` of its own output type, the map entry of that type
+    (never an injector argument) and its own argument list: kind, source identity and flags are
+    those of the one source of the type. -/
+theorem solve_call_payload {pm : PMap} {sm : SMap} {given : List Ty} {out : Ty} (hH : H pm given) :
+    ∀ c ∈ (final pm sm given out).calls, ∃ pt, look c.out pm = some pt ∧ pt.t = c.out ∧
+      (∀ i, pt.src ≠ .arg i) ∧ mkCall c.out pt.src c.args = some c :=
+  WireP.Solve.solve_call_payload hH.concClosed hH.givenNodup
+
+/-- **No type is built twice**, and no given type is built at all. -/
+theorem solve_outs_nodup {pm : PMap} {sm : SMap} {given : List Ty} {out : Ty} (hH : H pm given) :
+    ((final pm sm given out).calls.map (·.out)).Nodup ∧
+    ∀ c ∈ (final pm sm given out).calls, c.out ∉ given :=
+  WireP.Solve.solve_outs_nodup hH.concClosed hH.givenNodup
+
+/-- **Minimality.**  Only what the requested type transitively needs is built. -/
+theorem solve_only_needed {pm : PMap} {sm : SMap} {given : List Ty} {out : Ty} (hH : H pm given) :
+    ∀ c ∈ (final pm sm given out).calls, Reach pm out c.out :=
+  WireP.Solve.solve_only_needed hH.concClosed hH.givenNodup
+
+/-- **The result.**  Without errors the requested type is indexed with a variable, and that
+    variable holds the requested type (resolved through a binding). -/
+theorem solve_result_partial {pm : PMap} {sm : SMap} {given : List Ty} {out : Ty}
+    (hH : H pm given) (hg : GivenSelf pm given) (he : (final pm sm given out).errs = []) :
+    ∃ n, look out (final pm sm given out).index = some (some n) ∧
+      produced given (final pm sm given out).calls n = some (resolveTy pm out) :=
+  WireP.Solve.solve_result_partial hH hg he
+
+/-- what `injectPass` returns: the output of the last call is the requested type -/
+theorem solve_result_last {pm : PMap} {sm : SMap} {given : List Ty} {out : Ty} (hH : H pm given)
+    (hc : (final pm sm given out).calls ≠ []) (he : (final pm sm given out).errs = []) :
+    ((final pm sm given out).calls.getLast?).map (·.out) = some (resolveTy pm out) :=
+  WireP.Solve.solve_result_last hH hc he
+
+/-- the two extra hypotheses used by the `…_partial` theorems (here and in C06 / C08 / C11) both
+    follow from what `buildProviderMap args …` guarantees for `given = args` -/
+theorem givenArgs_suffices {pm : PMap} {given : List Ty} (h : GivenArgs pm given) :
+    GivenLeaf pm given ∧ GivenSelf pm given :=
+  ⟨h.leaf, h.leaf.self⟩
+
+/-! ## non-vacuity: a diamond over `2` with a binding `3 ↦ 2` and a field `7` of `6` -/
+
+open WireP.Solve.Ex
+
+example : H pmEx [0] := hEx
+example : GivenSelf pmEx [0] := leafEx.self
+example : GivenArgs pmEx [0] := by intro g hg; simp at hg; subst hg; exact ⟨0, rfl⟩
+example : svFuel pmEx = 18 := by decide
+example : (final pmEx smEx [0] 7).stk = [] ∧ (final pmEx smEx [0] 7).errs = [] := by decide
+example : (final pmEx smEx [0] 7).calls.map (·.out) = [1, 2, 4, 5, 6, 7] := by decide
+example : (final pmEx smEx [0] 7).calls.map (·.args) = [[], [0, 1], [2], [2], [3, 4], [5]] := by
+  decide
+example : (final pmEx smEx [0] 7).calls.map (·.kind) =
+    [.value, .func, .func, .func, .struct, .field] := by decide
+example : look 7 (final pmEx smEx [0] 7).index = some (some 6) ∧
+    produced [0] (final pmEx smEx [0] 7).calls 6 = some 7 := by decide
+example : solve pmEx smEx dEx [] [0] 7 = .ok (final pmEx smEx [0] 7).calls := rfl
+
+/-- the brief's `c.ins = depsOf pt.src` fails for a field call: `mkCall` leaves `ins` empty -/
+example : ((final pmEx smEx [0] 7).calls[5]?).map (fun c => (c.out, c.kind, c.ins)) =
+    some (7, .field, []) ∧ (look 7 pmEx).map (fun pt => depsOf pt.src) = some [6] := by decide
+
+/-- `GivenSelf` cannot be dropped from `solve_args_sound_partial`: with a given type `3` that is
+    the key of a binding `3 ↦ 2`, `H` holds, the call for `4` receives variable `0`, which holds
+    the given `3`, whereas the brief's statement asks for `resolveTy pmA 3 = 2`. -/
+example : H pmA [3] ∧
+    (final pmA [] [3] 4).calls.map (fun c => (c.out, c.args)) = [(4, [0])] ∧
+    produced [3] (final pmA [] [3] 4).calls 0 = some 3 ∧ resolveTy pmA 3 = 2 :=
+  ⟨hA, by decide, by decide, by decide⟩
+
+/-- … nor from `solve_result_partial` -/
+example : H pmA [3] ∧ (final pmA [] [3] 3).errs = [] ∧
+    look 3 (final pmA [] [3] 3).index = some (some 0) ∧
+    produced [3] (final pmA [] [3] 3).calls 0 = some 3 ∧ resolveTy pmA 3 = 2 :=
+  ⟨hA, by decide, by decide, by decide, by decide⟩
+
 end WireP.C02
